@@ -110,6 +110,27 @@ pub fn requests(secret: &str) -> Vec<(String, WireReq, String, Cfg)> {
         w.uri = format!("http://example.amazonaws.com:80{}", w.uri);
         out.push(("post-folded-form-absolute-target".to_string(), w, sig, cfg));
     }
+    // expected signatures of special shape (the value the server computes is not steered by any input field, so a
+    // nonce parameter is searched for): beginning with "00", ending in "00", beginning with "ff" -- what a comparison
+    // that treats the expected value as a number, trims it or pads it would stumble over
+    for (name, pred) in [
+        ("get-expected-signature-begins-with-00", (|s: &str| s.starts_with("00")) as fn(&str) -> bool),
+        ("get-expected-signature-ends-in-00", |s: &str| s.ends_with("00")),
+        ("get-expected-signature-begins-with-ff", |s: &str| s.starts_with("ff")),
+    ] {
+        let mut found = None;
+        for nonce in 0..100_000u32 {
+            let n = nonce.to_string().into_bytes();
+            let r = mk(name, &|p| {
+                p.url_params = vec![(b"nonce".to_vec(), n.clone())];
+            });
+            if pred(&r.2) {
+                found = Some(r);
+                break;
+            }
+        }
+        out.push(found.unwrap_or_else(|| machinery_error("C07: no nonce gives an expected signature of the wanted shape")));
+    }
     out
 }
 
@@ -681,6 +702,17 @@ pub fn run(ctx: &Ctx) -> Report {
         }
     }
     let workers = if thorough { workers } else { jobs.len().max(workers) };
+    // expected signatures of special shape (begin with "00", end in "00", begin with "ff"): the positions next to
+    // both ends in quick, all in thorough
+    {
+        let vs: Vec<usize> = if thorough { (0..128).collect() } else { vec![0, 1, 2, 3, 61, 62, 63] };
+        for ri in [9usize, 10, 11] {
+            for c in vs.chunks(if thorough { 16 } else { 9 }) {
+                jobs.push((0, ri, c.to_vec(), 0));
+            }
+        }
+    }
+    let workers = if thorough { workers } else { jobs.len().max(workers) };
     let outputs: Vec<(usize, usize, Vec<serde_json::Value>)> = {
         use rayon::prelude::*;
         let pool = rayon::ThreadPoolBuilder::new().num_threads(workers).build().unwrap();
@@ -765,7 +797,7 @@ pub fn run(ctx: &Ctx) -> Report {
     Report {
         stats: st,
         rule: format!(
-            "for each of {} (request, key) groups ({}): wrong signatures of the correct length — only position p wrong for every p in 0..63{} — substituted within the character's class (digit->digit, letter->letter), in lower case and (every 8th position in quick, all in thorough) with the letters in upper case, each family compared with its own all-wrong reference; the lower-case family is traced again with a logger installed at Debug level that formats every record; six further request shapes — three carry the presented signature twice (a repeated X-Amz-Signature parameter, a repeated Signature= field, a stray X-Amz-Signature query parameter next to header authentication), three vary the request (Host with a port; session token, twelve more signed headers and a repeated query parameter; folded form body behind an absolute-form target; positions 0, 13, 26, 39, 52, 63 in quick, all positions and both secrets in thorough); the refusal is also traced on an authenticator assembled by hand through the unstable builder with validate_signature called directly, and while another validation of the very same request — the correctly signed one, or another wrong guess — is suspended in its key provider's future (polled until parked before the trace starts, still parked after it); each is validated in a forked child of a warmed-up tracer (the genuine request accepted once, then 14 wrong signatures refused for the same access key) of a single-threaded tracer (ship-profile build, logger off unless stated, byte-wise early-exit memcmp/bcmp linked in) and single-stepped (the child sets the processor's trap flag around the call and a SIGTRAP handler sees every instruction; a ptrace stepper is kept as a fallback, VH_C07_PTRACE=1) from just before to just after sigv4_validate_request; every trace must have the same length and the same RIP-sequence hash as the group's reference trace (all 64 characters wrong), which is itself traced twice to prove the apparatus deterministic. states = distinct (group, trace hash); transitions = machine instructions stepped",
+            "for each of {} (request, key) groups ({}): wrong signatures of the correct length — only position p wrong for every p in 0..63{} — substituted within the character's class (digit->digit, letter->letter), in lower case and (every 8th position in quick, all in thorough) with the letters in upper case, each family compared with its own all-wrong reference; the lower-case family is traced again with a logger installed at Debug level that formats every record; six further request shapes — three carry the presented signature twice (a repeated X-Amz-Signature parameter, a repeated Signature= field, a stray X-Amz-Signature query parameter next to header authentication), three vary the request (Host with a port; session token, twelve more signed headers and a repeated query parameter; folded form body behind an absolute-form target; positions 0, 13, 26, 39, 52, 63 in quick, all positions and both secrets in thorough); three more requests carry a nonce chosen so that the signature the server computes begins with '00', ends in '00' or begins with 'ff' (positions 0-3 and 61-63 in quick, all in thorough); the refusal is also traced on an authenticator assembled by hand through the unstable builder with validate_signature called directly, and while another validation of the very same request — the correctly signed one, or another wrong guess — is suspended in its key provider's future (polled until parked before the trace starts, still parked after it); each is validated in a forked child of a warmed-up tracer (the genuine request accepted once, then 14 wrong signatures refused for the same access key) of a single-threaded tracer (ship-profile build, logger off unless stated, byte-wise early-exit memcmp/bcmp linked in) and single-stepped (the child sets the processor's trap flag around the call and a SIGTRAP handler sees every instruction; a ptrace stepper is kept as a fallback, VH_C07_PTRACE=1) from just before to just after sigv4_validate_request; every trace must have the same length and the same RIP-sequence hash as the group's reference trace (all 64 characters wrong), which is itself traced twice to prove the apparatus deterministic. states = distinct (group, trace hash); transitions = machine instructions stepped",
             groups.len(),
             if thorough { "GET vanilla, POST body, query carrier x 2 secrets" } else { "GET vanilla, first secret" },
             if thorough { ", and positions p..63 all wrong for every p" } else { "" }
